@@ -8,7 +8,7 @@ RULE = ("sessions against 0-4 scripted Keep services (per-request answers drawn 
         "connection error; bodies end cleanly or with a transport error, optionally reporting the end with the "
         "last data, optionally failing Close, delivered in pieces of 1..1000 bytes) over 1-6 planted blocks "
         "(locators with consistent, missing, wrong, oversized or negative size hints, extra hints, the empty "
-        "block, two locators sharing one hash), Retries 0-3, BlockCache MaxBlocks 0-3; ops: Get + ReadAll / "
+        "block, two locators sharing one hash, size hints beyond 32 bits and Content-Lengths above 64 MiB), Retries 0-3, BlockCache MaxBlocks 0-3; ops: Get + ReadAll / "
         "WriteTo / ReadFull(m)+Close, Ask, ReadAt at many offsets, File.Read/Seek over a one-file manifest; multi-stream multi-file collections (1-3 streams, files sharing blocks, tokens straddling block boundaries, several handles via CollectionFileReader); "
         "re-read sessions (every first answer is a wrong 200, then the same block is read again through the same cache); concurrent schedules (2-4 readers, 1-2 blocks, every fetch request blocked and released in scripted "
         "order); storedSegment.ReadAt with arbitrary offset/length/off/len. Non-trivial = at least one HTTP "
@@ -23,11 +23,13 @@ ASSUMPTIONS = [
 ]
 TRUSTED = ["executable MD5 in Lean (ArvVerif/Base/MD5.lean), compared with Go crypto/md5 through every case",
            "runtime.Stack based quiescence detection in the concurrent-schedule driver"]
+# F3a (fixed in /repo): cached reads whose size exceeds the cache buffer used to panic in the fetch goroutine.
+# The oracle reports any driver-level crash/panic result: "the read ends with an error", not with a dead process.
 
 DRIVERS = {
-    "kc": {"kind": "gotest", "pkg": "sdk/go/keepclient", "test": "TestVerifC03", "min_chunk": 40},
-    "kcx": {"kind": "gotest", "pkg": "sdk/go/keepclient", "test": "TestVerifC03", "isolate": True, "shards": 1,
-            "case_timeout": 60},
+    # isolate: a shard whose process dies is re-run case by case, so that a crash is pinned to its input
+    "kc": {"kind": "gotest", "pkg": "sdk/go/keepclient", "test": "TestVerifC03", "min_chunk": 40, "isolate": True,
+           "case_timeout": 120},
     "arv": {"kind": "gotest", "pkg": "sdk/go/arvados", "test": "TestVerifC03", "min_chunk": 200},
 }
 
@@ -35,21 +37,8 @@ ALNUM = "abcdefghijklmnopqrstuvwxyz0123456789"
 EMPTY = "d41d8cd98f00b204e9800998ecf8427e"
 
 
-def _crashy(case):
-    """A cached read of a locator whose size hint does not fit 32 bits: BlockCache.Get's fetch goroutine
-    panics in make([]byte, size, bufsize) when such a Get succeeds (process crash, not a wrong read)."""
-    f = case.split(" ")
-    if f[0] not in ("sess", "conc"):
-        return False
-    blocks = f[4] if f[0] == "sess" else f[3]
-    big = [i for i, b in enumerate(blocks.split("|")) if 2 ** 31 <= (_hint_of(b.split("~")[0]) or 0) < 2 ** 63]
-    if f[0] == "conc":
-        return any(st[0] == "s" and int(st[1:]) in big for st in f[4].split(",") if st != "-")
-    return any(op[0] == "R" and int(op[1:].split(":")[0]) in big for op in f[6].split(",") if op != "-")
-
-
 def channel(case):
-    return "arv" if case.startswith("seg ") else "kcx" if _crashy(case) else "kc"
+    return "arv" if case.startswith("seg ") else "kc"
 
 
 def md5(b):
@@ -270,8 +259,6 @@ def _gen_sess(rng, want_file=False, sweepy=False):
             b = rng.randrange(nblk)
             n = len(plants[b][0])
             r = rng.random()
-            if (plants[b][2] or 0) >= 2 ** 31:
-                r = 0.56 + 0.44 * r      # no cached read of an oversized hint here (see _gen_crashy)
             if (sweepy and r < 0.56) or r < 0.55:
                 off = rng.choice([0, 0, 0, 1, n // 2, max(0, n - 1), n, n + 1, n + 5])
                 ln = rng.choice([0, 1, 2, n, n, n + 3, 300])
@@ -415,14 +402,31 @@ def _gen_reread(rng):
     return f"sess {retries} {rng.choice([0, 0, 1, 2])} {','.join(uuids)} {'|'.join(blocks)} - {','.join(ops)}"
 
 
-def _gen_crashy(rng):
-    """ReadAt of a locator whose hint is >= 2^31 answered without Content-Length: the fetch goroutine panics."""
-    uuids = _uuids(rng, 1)
+def _gen_oversize(rng):
+    """Finding F3a (fixed): a cached read whose size to read exceeds the cache buffer -- a size hint that
+    does not fit 32 bits answered with status 200 (no or equal Content-Length), or a locator without size hint
+    answered with a Content-Length above 64 MiB -- must end with an error (it used to kill the process)."""
+    nsvc = rng.randint(1, 2)
+    uuids = _uuids(rng, nsvc)
     blk = _content(rng)
-    big = rng.choice([2 ** 31, 2 ** 40, 2 ** 63 - 1])
-    loc = f"{md5(blk)}+{big}"
-    ans = rng.choice([_body_resp(rng, -1, blk), "S404", "E", _body_resp(rng, big, blk), _body_resp(rng, 5, blk)])
-    return f"sess 0 0 {uuids[0]} {loc}~{blk.hex()}~0~{ans} - R0:0:4"
+    h = md5(blk)
+    if rng.random() < 0.5:
+        big = rng.choice([2 ** 31, 2 ** 31 + 1, 2 ** 32, 2 ** 40, 2 ** 63 - 1])
+        loc = f"{h}+{big}"
+        answers = [_body_resp(rng, -1, blk), _body_resp(rng, big, blk), _body_resp(rng, 5, blk), "S404", "E", "S503"]
+    else:
+        loc = h if rng.random() < 0.7 else f"{h}+x"
+        big = rng.choice([2 ** 26 + 1, 70000000, 2 ** 31, 2 ** 40, 2 ** 63 - 1])
+        answers = [_body_resp(rng, big, blk), _body_resp(rng, big, blk), _body_resp(rng, len(blk), blk), "S404", "S500"]
+    scripts = [",".join(rng.choice(answers) for _ in range(rng.randint(1, 3))) for _ in range(nsvc)]
+    ops = [rng.choice(["R0:0:4", "R0:0:300", "R0:1:2", "G0r", "G0c2", "A0"]) for _ in range(rng.randint(1, 4))]
+    if not any(o[0] == "R" for o in ops):
+        ops.append("R0:0:4")
+    kind = rng.random()
+    if kind < 0.2:
+        sched = ",".join(rng.choice(["s0", "s0", "f0"]) for _ in range(rng.randint(2, 6)))
+        return f"conc {rng.choice([0, 1])} {','.join(uuids)} {loc}~{blk.hex()}~{_order(h, uuids)}~{';'.join(scripts)} s0,{sched}"
+    return f"sess {rng.choice([0, 1])} 0 {','.join(uuids)} {loc}~{blk.hex()}~{_order(h, uuids)}~{';'.join(scripts)} - {','.join(ops)}"
 
 
 def _gen_conc(rng):
@@ -486,8 +490,8 @@ def generate(rng, tier):
         cases.append(_gen_reread(rng))
     for _ in range(300 * scale):
         cases.append(_gen_multifile(rng))
-    for _ in range(4):
-        cases.append(_gen_crashy(rng))
+    for _ in range(40 * scale):
+        cases.append(_gen_oversize(rng))
     return cases
 
 
@@ -528,9 +532,6 @@ def _consistent(blk):
 
 
 def compare(case, impl, model):
-    if impl.startswith("CRASH"):
-        # the model's explicit `panic` outcome: the process died in the fetch goroutine
-        return ":panic" in model and _crashy(case)
     return impl == model
 
 
@@ -555,7 +556,9 @@ def oracle(case, impl):
     when the locator has one) is named by the locator; a faulty response must surface as an error and
     must not satisfy a later read from the cache. Looks at implementation output only."""
     f = case.split(" ")
-    if impl == "bad-op" or impl.startswith(("panic", "CRASH", "timeout", "stuck")):
+    if impl.startswith(("panic", "CRASH")):
+        return "the read ended with a crash of the reading process instead of an error: " + impl[:160]
+    if impl == "bad-op" or impl.startswith(("timeout", "stuck")):
         return None     # no read was observed; `compare` reports the disagreement with the model
     if f[0] == "seg":
         blk = bytes.fromhex("" if f[1] == "-" else f[1])
